@@ -11,3 +11,11 @@ From PFL Require Import Gen.PyConst Proofs.GenTieC07.
 Theorem C07_brackets_escape_from_source : In 46%N pyre_TO_ESCAPE_IN_BRACKETS /\ In 36%N pyre_TO_ESCAPE_IN_BRACKETS.
 Proof. split; [exact (proj1 brackets_escape_dot_dollar)|exact (proj1 (proj2 brackets_escape_dot_dollar))]. Qed.
 Print Assumptions C07_brackets_escape_from_source.
+
+(* the translation of the documented subset to plain regular expressions agrees with a direct semantics of the subset
+   (literals, '.', sets and negated sets over string.printable, alternation, *, +, ?, {m,n} as m..n repetitions) *)
+From PFL Require Import Model.PyRegex Proofs.PyRegexSem.
+Theorem C07_translation_semantics : forall (universe : list N) (p : pyre) (w : list N),
+  den (py_translate universe p) w <-> pyden universe p w.
+Proof. exact py_translate_sem. Qed.
+Print Assumptions C07_translation_semantics.
